@@ -166,6 +166,11 @@ class Ctx:
         self.noinline = []          # extra regexes of callees that must stay opaque calls
         self.reader = False         # reader mode: applications of nom parser values become events
         self.open_loops = False     # accept loops without a recognisable trip count (body recorded once)
+        self.track_fields = False   # track stores to fields of by-reference parameters (sink internals)
+        self.veclen_keys = set()
+        self.sink_internal = False  # analyse BitSink impls themselves: sink methods are inlined, not turned into events
+        self.fields_written = set()
+        self.field_base = {}
         self.collect_asserts = False  # record every assert terminator / panicky std call with the facts known there
         self.asserts = []
         self.aggs = []              # aggregate construction sites (crate enums/structs) with the facts known there
@@ -198,6 +203,8 @@ class Interp:
         for i in range(1, body.argc + 1):
             self.env[i] = args[i - 1] if args and i - 1 < len(args) and args[i - 1] is not None else ("p", i, ())
         self.veclen = {}
+        self.fields = {}
+        self.tsubst = {}            # generic type parameter name -> concrete type (set when inlined with known generics)
         self.assume = []
         self._ok = None
         self._ipdom = None
@@ -272,6 +279,11 @@ class Interp:
                 v = op.get("sv", op.get("v"))
                 if isinstance(v, int):
                     return ("c", v, None)
+                m = re.match(r"^<(\w+) as bitsink::seal_(?:signed_)?bits::Sealed>::BITS(_LOG2)?$", op.get("s") or "")
+                if m:
+                    ty = self.tsubst.get(m.group(1), m.group(1))
+                    if ty in INT_BITS:
+                        return C(INT_BITS[ty] if not m.group(2) else INT_BITS[ty].bit_length() - 1)
                 return ("c", v, op["cdef"])
             if "param" in op:
                 return ("cparam", op["param"])
@@ -327,6 +339,10 @@ class Interp:
                 base = ("index", base, idx)
                 continue
             p.append(x)
+        if self.ctx.track_fields and p and all(x.startswith(".") for x in p):
+            key = (canon(base), tuple(p))
+            if key in self.fields:
+                return self.fields[key]
         return self.proj(base, p)
 
     def proj(self, e, p):
@@ -416,7 +432,19 @@ class Interp:
             return ("repeat", self.operand(rv["op"]))
         return ("?", k)
 
+    def field_default(self, k):
+        """Value of a tracked field that has not been stored to yet."""
+        if k[1] and k[1][-1] == "#len":
+            return ("len", self.proj(self.ctx.field_base[k], list(k[1][:-1])))
+        return self.proj(self.ctx.field_base[k], list(k[1]))
+
     def len_of(self, x):
+        if self.ctx.track_fields:
+            r0 = strip_casts(x)
+            if isinstance(r0, tuple) and r0 and r0[0] == "p" and r0[2]:
+                fk = (canon(("p", r0[1], ())), tuple(r0[2]) + ("#len",))
+                if fk in self.fields:
+                    return self.fields[fk]
         key = canon(x)
         if key in self.veclen:
             return self.veclen[key]
@@ -438,7 +466,7 @@ class Interp:
         if self.ctx.log_calls and re.search(self.ctx.log_calls, full):
             self.ctx.calls.append((full, tuple(args), site, self.body.id))
         # ---- sink operations (trait methods, on any receiver)
-        if trait == BITSINK:
+        if trait == BITSINK and not (self.ctx.sink_internal and (fn.get("res") in self.facts.bodies)):
             g = fn.get("gargs") or []
             if name == "write":
                 ty = g[1] if len(g) > 1 else "?"
@@ -465,9 +493,15 @@ class Interp:
                 mid = self.ctx.mark_id()
                 ev.append(("mark", args[0], mid))
                 return ("sinklen", mid) if name == "len" else ("sinkbytes", mid)
+            if name in ("paddings", "paddings_to_byte") and self.ctx.sink_internal \
+                    and not (self.ctx.noinline and fn_is(fn, self.ctx.noinline)):
+                v = self.try_inline(fn, args)
+                if v is not None:
+                    return v
             if name in ("reserve", "write_to_byte_slice", "new", "with_capacity", "is_empty", "into_inner", "to_bitstring", "paddings", "paddings_to_byte"):
                 return ("call", full, tuple(args), ())
-            raise Undecided("unmodelled MemSink method %s at %s" % (name, site))
+            if not self.ctx.sink_internal:
+                raise Undecided("unmodelled MemSink method %s at %s" % (name, site))
         if trait == BITREPR and name == "write":
             ev.append(("comp", args[1], fn.get("self_ty"), args[0], site))
             return ("call", full, tuple(args), ())
@@ -475,6 +509,31 @@ class Interp:
             ev.append(("extra", args[1], fn["def"].rsplit("::", 1)[0], args[0], site))
             return ("call", full, tuple(args), ())
         # ---- vectors
+        if self.ctx.track_fields and re.search(r"Vec::<", full) and args:
+            r0 = strip_casts(args[0])
+            if isinstance(r0, tuple) and r0 and r0[0] == "p" and r0[2] and all(x.startswith(".") for x in r0[2]):
+                base = ("p", r0[1], ())
+                key = (canon(base), tuple(r0[2]) + ("#len",))
+                cur = self.fields.get(key, ("len", r0))
+                new = None
+                if name == "push":
+                    new = mk_bin("Add", cur, C(1))
+                elif name == "extend_from_slice" and len(args) == 2:
+                    new = mk_bin("Add", cur, self.len_of(args[1]))
+                elif name == "resize" and len(args) >= 2:
+                    new = args[1]
+                elif name == "clear":
+                    new = C(0)
+                elif name in ("truncate", "pop", "insert", "append", "extend", "resize_with", "drain", "remove", "retain",
+                              "split_off", "dedup", "swap_remove", "set_len"):
+                    new = ("?", "vec length after %s" % name)
+                if new is not None:
+                    self.ctx.field_base[key] = base
+                    self.ctx.veclen_keys.add(key)
+                    self.fields[key] = new
+                    self.ctx.fields_written.add(key)
+                    if name != "push":
+                        return C(0) if name in ("resize", "clear") else ("call", full, tuple(args), ())
         if name == "push" and (re.search(r"heapless::", full) or re.search(r"Vec::<", full)):
             ev.append(("push", args[0], args[1], site))
             return ("call", full, tuple(args), ())
@@ -554,6 +613,9 @@ class Interp:
         v = self.try_inline(fn, args)
         if v is not None:
             return v
+        if self.ctx.sink_internal and fn.get("local") and (t.get("argtys") or [""])[0].startswith("&mut ") \
+                and not fn_is(fn, NOINLINE) and not (self.ctx.noinline and fn_is(fn, self.ctx.noinline)):
+            raise Undecided("cannot summarise %s (called with a mutable sink at %s)" % (full, site))
         return ("call", full, tuple(args), tuple(fn.get("gargs") or ()))
 
     def closure_touches_sink(self, cid, seen=None):
@@ -592,8 +654,19 @@ class Interp:
         ng = len(self.ctx.aggs)
         try:
             sub = Interp(self.ctx, cb, args, self.depth + 1)
+            sub.fields = self.fields
+            names = []
+            for pr in cb.raw.get("preds") or []:
+                nm = pr.split(":")[0].strip()
+                if re.match(r"^[A-Z]\w*$", nm) and nm != "Self" and nm not in names:
+                    names.append(nm)
+            g = [self.tsubst.get(x, x) for x in (fn.get("gargs") or [])]
+            if names and len(g) >= len(names):
+                sub.tsubst = dict(zip(names, g[-len(names):]))
             ev = sub.run()
-            if has_effect(ev, ignore_push=self.ctx.collect_asserts):
+            if self.ctx.sink_internal:
+                pass
+            elif has_effect(ev, ignore_push=self.ctx.collect_asserts):
                 del self.ctx.asserts[na:]
                 return None
             if self.ctx.collect_asserts:
@@ -685,6 +758,7 @@ class Interp:
             raise Undecided("closure nesting too deep at %s" % site)
         sub = Interp(self.ctx, cb, [clo] + list(params), self.depth + 1)
         sub.veclen = self.veclen
+        sub.fields = self.fields
         sub.assume = self.assume
         na = len(self.assume)
         sev = sub.run()
@@ -708,6 +782,14 @@ class Interp:
             if s["k"] != "assign":
                 continue
             if s["dst"]["p"]:
+                if self.ctx.track_fields:
+                    pj = [x for x in s["dst"]["p"] if x != "*"]
+                    if pj and all(x.startswith(".") for x in pj):
+                        base = self.env.get(s["dst"]["l"], ("l", b.id, s["dst"]["l"], ()))
+                        key = (canon(base), tuple(pj))
+                        self.ctx.field_base[key] = base
+                        self.fields[key] = self.rvalue(s["rv"])
+                        self.ctx.fields_written.add(key)
                 continue
             v = self.rvalue(s["rv"])
             self.env[s["dst"]["l"]] = v
@@ -857,9 +939,13 @@ class Interp:
             envs = []
             base_env = dict(self.env)
             base_vl = dict(self.veclen)
+            base_fields = dict(self.fields)
+            arm_fields = []
             for tgt in succ:
                 self.env = dict(base_env)
                 self.veclen = dict(base_vl)
+                self.fields.clear()
+                self.fields.update(base_fields)
                 aev = []
                 na = len(self.assume)
                 if self.ctx.collect_asserts:
@@ -868,6 +954,7 @@ class Interp:
                 del self.assume[na:]
                 lab = self.norm_label(t, labels[tgt], self.variant_count(t))
                 arms.append((lab, aev))
+                arm_fields.append((lab, dict(self.fields), endb is not None and b.term(endb)["k"] == "ret" and join is None))
                 envs.append((lab, self.env, self.retval if endb is not None and b.term(endb)["k"] == "ret"
                              and join is None else None))
             # merge environments
@@ -883,6 +970,19 @@ class Interp:
                     merged[kx] = ("case", scrut, tuple((lab, v if v is not None else ("?", "undef")) for lab, v in vals))
             self.env = merged
             self.veclen = base_vl
+            if self.ctx.track_fields:
+                fk = set()
+                for _l, fd, _r in arm_fields:
+                    fk |= set(fd.keys())
+                self.fields.clear()
+                for kx in fk:
+                    vals = [(lab, fd.get(kx, base_fields.get(kx))) for lab, fd, _r in arm_fields]
+                    if all(v[1] == vals[0][1] for v in vals):
+                        if vals[0][1] is not None:
+                            self.fields[kx] = vals[0][1]
+                    else:
+                        self.fields[kx] = ("case", scrut, tuple(
+                            (lab, v if v is not None else self.field_default(kx)) for lab, v in vals))
             ev.append(("case", scrut, arms))
             if join is None:
                 # every arm ended in the return block
@@ -967,10 +1067,13 @@ class Interp:
                 carried.append(l)
         pre_env = dict(self.env)
         pre_vl = dict(self.veclen)
+        pre_fields = dict(self.fields)
 
         def one_pass(setup):
             self.env = dict(pre_env)
             self.veclen = dict(pre_vl)
+            self.fields.clear()
+            self.fields.update(pre_fields)
             setup()
             pev = []
             desc = None
@@ -989,16 +1092,68 @@ class Interp:
             self.seq(body_b, h, pev)
             return desc, cond, pev, dict(self.env)
 
+        # pass 0 (field tracking only): which fields does one iteration store to?
+        fkeys = []
+        if self.ctx.track_fields:
+            na0 = len(self.assume)
+            nas0 = len(self.ctx.asserts)
+            nm0 = self.ctx.nmark
+
+            def setup0():
+                for l in carried:
+                    self.env[l] = ("lc", lid, l)
+            try:
+                one_pass(setup0)
+                fkeys = [k for k in self.fields if self.fields.get(k) != pre_fields.get(k)]
+            finally:
+                del self.assume[na0:]
+                del self.ctx.asserts[nas0:]
+                self.ctx.nmark = nm0
+
         # pass 1: symbolic loop-carried values, discover recurrences
         def setup1():
             for l in carried:
                 self.env[l] = ("lc", lid, l)
+            for k in fkeys:
+                self.fields[k] = ("lc", lid, k)
         save_marks = self.ctx.nmark
         na1 = len(self.assume)
         nas1 = len(self.ctx.asserts)
         desc, cond, _pev, env1 = one_pass(setup1)
+        fields1 = dict(self.fields)
         del self.assume[na1:]
         del self.ctx.asserts[nas1:]
+        fsteps = {}
+        islc = lambda e: isinstance(e, tuple) and len(e) > 1 and e[0] == "lc" and e[1] == lid
+
+        def step_of(v, lc):
+            if isinstance(v, tuple) and v and v[0] == "ovf":
+                v = v[1]
+            if v == lc:
+                return C(0)
+            if isinstance(v, tuple) and v and v[0] == "bin" and v[1] == "Add":
+                if v[2] == lc and not mentions(v[3], islc):
+                    return v[3]
+                if v[3] == lc and not mentions(v[2], islc):
+                    return v[2]
+                # (lc + a) + b
+                inner = step_of(v[2], lc)
+                if inner is not None and not mentions(v[3], islc):
+                    return mk_bin("Add", inner, v[3])
+            if isinstance(v, tuple) and v and v[0] == "case" and evalc(v[1]) is not None:
+                d = evalc(v[1])
+                for lab, x in v[2]:
+                    if d in (lab if isinstance(lab, tuple) else (lab,)):
+                        return step_of(x, lc)
+            if isinstance(v, tuple) and v and v[0] == "case" and not mentions(v[1], islc):
+                arms = [(lab, step_of(x, lc)) for lab, x in v[2]]
+                if all(a[1] is not None for a in arms):
+                    if all(a[1] == arms[0][1] for a in arms):
+                        return arms[0][1]
+                    return ("case", v[1], tuple(arms))
+            return None
+        for k in fkeys:
+            fsteps[k] = step_of(fields1.get(k), ("lc", lid, k))
         steps = {}
         for l in carried:
             v = env1.get(l)
@@ -1054,6 +1209,26 @@ class Interp:
         else:
             iv_local = None
 
+        # fields with a constant step have the closed form init + iteration * step; steps of other fields may depend on them
+        fclosed = {}
+        if fkeys:
+            itno = ("idx", lid) if desc[0] != "range" else mk_bin("Sub", ("idx", lid), desc[2])
+            for k in fkeys:
+                st = fsteps.get(k)
+                if is_c(st) and st[1] != 0 and not strided:
+                    fclosed[k] = mk_bin("Add", pre_fields.get(k, self.field_default(k)), mk_bin("Mul", itno, st))
+
+            def close(e):
+                if not isinstance(e, tuple) or not e:
+                    return e
+                if e[0] == "lc" and len(e) > 2 and e[1] == lid and e[2] in fclosed:
+                    return fclosed[e[2]]
+                return tuple(close(x) if isinstance(x, tuple) else x for x in e)
+            if fclosed:
+                for k in fkeys:
+                    if fsteps.get(k) is None:
+                        fsteps[k] = step_of(close(fields1.get(k)), ("lc", lid, k))
+
         # pass 2: closed forms
         def setup2():
             for l in carried:
@@ -1073,6 +1248,11 @@ class Interp:
                     self.env[l] = mk_bin("Add", pre_env.get(l, ("?", "init")), mk_bin("Mul", k, st))
                 else:
                     self.env[l] = ("partial", lid, l)
+            for k in fkeys:
+                if k in fclosed:
+                    self.fields[k] = fclosed[k]
+                else:
+                    self.fields[k] = ("partial", lid, k) if not is_c(fsteps.get(k), 0) else pre_fields.get(k, self.field_default(k))
         self.ctx.nmark = save_marks
         na_loop = len(self.assume)
         if desc[0] == "range":
@@ -1111,6 +1291,16 @@ class Interp:
                 step2 = subst_lc(st, lid, env2, carried, iv_local)
                 self.env[l] = mk_bin("Add", pre_env.get(l, ("?", "init")), ("sumloop", desc, step2))
         self.veclen = pre_vl
+        if self.ctx.track_fields:
+            self.fields.clear()
+            self.fields.update(pre_fields)
+            for k in fkeys:
+                st = fsteps.get(k)
+                init = pre_fields.get(k, self.field_default(k))
+                if st is None:
+                    self.fields[k] = ("?", "field after loop")
+                elif not is_c(st, 0):
+                    self.fields[k] = mk_bin("Add", init, ("sumloop", desc, subst_lc(close(st) if fclosed else st, lid, env2, carried, iv_local)))
         return exit_b
 
     def iter_desc(self, it, lid):
